@@ -91,6 +91,27 @@ pub fn subjects(rng: &mut Rng, extra_random: usize) -> Vec<Subject> {
         t.prune(&2).unwrap();
         add("stale-caches-after-prune", "balanced 4 leaves; get_partitions; prune(2) without reset", t, false);
     }
+    // stale leaf index with the SAME number of leaves: an unnamed leaf is added below a tip (the tip becomes internal), or a leaf
+    // loses its name in place, after the index was built and without the documented reset
+    {
+        let mut t = from_rose("((h41:3ff0000000000000[-],h42:3ff0000000000000[-])-:3ff0000000000000[-],(h43:4000000000000000[-],h44:3ff0000000000000[-])-:3ff0000000000000[-])-:-[-]");
+        let _ = t.get_partitions();
+        let _ = t.distance_matrix_recursive();
+        t.add_child(Node::new(), 2, Some(1.0)).unwrap();
+        add("stale-index-unnamed-leaf-below-a-tip", "balanced 4 leaves; get_partitions; distance_matrix_recursive; add_child(unnamed, tip 2) without reset", t, false);
+    }
+    {
+        let mut t = from_rose("((h41:3ff0000000000000[-],h42:3ff0000000000000[-])-:3ff0000000000000[-],(h43:4000000000000000[-],h44:3ff0000000000000[-])-:3ff0000000000000[-])-:-[-]");
+        let _ = t.get_partitions();
+        t.get_mut(&2).unwrap().name = None;
+        add("stale-index-leaf-lost-its-name", "balanced 4 leaves; get_partitions; get_mut(2).name = None without reset", t, false);
+    }
+    {
+        let mut t = from_rose("((h41:3ff0000000000000[-],h42:3ff0000000000000[-])-:3ff0000000000000[-],(h43:4000000000000000[-],h44:3ff0000000000000[-])-:3ff0000000000000[-])-:-[-]");
+        let _ = t.get_partitions();
+        t.get_mut(&2).unwrap().set_name("h43".into());
+        add("stale-index-leaf-renamed-to-a-duplicate", "balanced 4 leaves; get_partitions; get_mut(2).set_name(duplicate) without reset", t, false);
+    }
     // trees degenerated by random edit histories
     for k in 0..extra_random {
         let mut shape = random_shape(rng, rng.clone().range(2, 12));
@@ -296,6 +317,23 @@ fn matrix_calls() -> Vec<(String, String, &'static str)> {
             let _ = std::fs::remove_file(&path);
         }
     }
+    // a matrix that was allocated for n taxa but never labelled (`new_with_size` without `set_taxa`), and one labelled twice
+    for n in 0..=4usize {
+        let a = format!("unlabelled-size{n}");
+        let m: DistanceMatrix<f64> = DistanceMatrix::new_with_size(n);
+        macro_rules! ui { ($name:expr, $f:expr) => {{ let mm = m.clone(); push($name, a.clone(), guarded(AssertUnwindSafe(|| { let _ = $f(mm); "ok" }))); }}; }
+        macro_rules! ur { ($name:expr, $f:expr) => {{ let mm = m.clone(); push($name, a.clone(), guarded(AssertUnwindSafe(|| match $f(mm) { Ok(_) => "ok", Err(_) => "err" }))); }}; }
+        ui!("to_map", |mm: DistanceMatrix<f64>| mm.to_map());
+        ui!("min", |mm: DistanceMatrix<f64>| mm.min());
+        ui!("max", |mm: DistanceMatrix<f64>| mm.max());
+        ui!("indexed_iter", |mm: DistanceMatrix<f64>| mm.indexed_iter().count());
+        ur!("to_phylip-square", |mm: DistanceMatrix<f64>| mm.to_phylip(true));
+        ur!("to_phylip-tril", |mm: DistanceMatrix<f64>| mm.to_phylip(false));
+        ur!("get-unknown", |mm: DistanceMatrix<f64>| mm.get("zz", "t0").map(|v| *v));
+        ur!("set-unknown", |mut mm: DistanceMatrix<f64>| mm.set("zz", "t0", 1.0));
+        ur!("upgma", |mm: DistanceMatrix<f64>| mm.upgma());
+        ur!("set_taxa;upgma", |mut mm: DistanceMatrix<f64>| { let _ = mm.set_taxa((0..n).map(|i| format!("t{i}")).collect()); mm.upgma() });
+    }
     // non-finite matrices with at least four taxa
     for (label, v) in [("all-inf", f64::INFINITY), ("all-nan", f64::NAN), ("all-neg", -1.0), ("all-zero", 0.0)] {
         for n in [4usize, 5, 6] {
@@ -420,7 +458,7 @@ pub fn run(thorough: bool, seed: u64, driver: &str, rep: &mut Report) {
         rep.case(&format!("matrix :: {f}({arg})"), *c != "ok");
         rep.count(&format!("outcome:{c}"));
         if *c == "panic" {
-            let sig_arg = if f == "neighbor_joining" { "every-matrix".to_string() } else { arg.split('@').next().unwrap_or(arg).split("-size").next().unwrap_or(arg).to_string() };
+            let sig_arg = if f == "neighbor_joining" { "every-matrix".to_string() } else if arg.starts_with("unlabelled-") { "unlabelled".to_string() } else { arg.split('@').next().unwrap_or(arg).split("-size").next().unwrap_or(arg).to_string() };
             rep.oracle("no-panic", &format!("matrix.{f}@{sig_arg}"), &format!("call: DistanceMatrix::{f}({arg})"), "panic");
         }
     }
